@@ -227,6 +227,13 @@ class Gen:
         src = self.pick_rect(i, host, src_shape)
         if src is None:
             return ['op', '+', self.scalar_ref(i, host), ['n', 1]]
+        if rng.chance(self.p.get('p_arrlit', 0) * 3):
+            # constant-folded array result of an information function, stored
+            # into a range of another shape (padding uses the array's default)
+            return ['f', rng.pick(['ISNUMBER', 'ISTEXT', 'ISERROR', 'ISBLANK',
+                                   'ISLOGICAL']),
+                    ['arr', [[rng.pick([1, 2, 'a', 'b']) for _ in range(
+                        rng.pick([1, 2]))]]]]
         k = rng.randrange(4)
         if k == 0:
             return src
@@ -470,6 +477,14 @@ def xlsx_books(world, placement, sheet_orders=None, styled=True,
                     ref = P.rect_a1(b, s, r, col, r + h - 1, col + w - 1,
                                     force_range=True)
                     ws[a1] = ArrayFormula(ref, text)
+                    if placement['style'] % 2 == 0:
+                        # as in files saved by Excel, the other cells of the
+                        # block hold cached values (here: stale ones, which
+                        # the loader must ignore)
+                        for rr in range(h):
+                            for cc in range(w):
+                                if (rr, cc) != (0, 0):
+                                    ws[P.a1(b, s, r + rr, col + cc)] = 777
                 else:
                     ws[a1] = text
             else:
@@ -497,3 +512,44 @@ def xlsx_books(world, placement, sheet_orders=None, styled=True,
         wb.save(bio)
         out[P.file(b)] = bio.getvalue()
     return out
+
+
+def add_satellite_name_chain(rng, world):
+    """Root cell -> satellite cell -> satellite defined name -> satellite cell:
+    the names of a lazily loaded workbook must be known to its own cells."""
+    if len(world['books']) < 2 or len(world['names']) >= len(NAMES):
+        return False
+    idx = Index(world)
+    b = rng.randrange(1, len(world['books']))
+    s = rng.randrange(len(world['books'][b]))
+    h, w = world['books'][b][s]
+    covered = set(idx.occ)
+    for c in world['cells']:
+        if 'f' in c:
+            for x in refs_of(c['f']):
+                r = x if x[0] == 'r' else world['names'][x[1]]['t']
+                covered.update(rect_cells(r))
+    for n in world['names']:
+        covered.update(rect_cells(n['t']))
+    free_b = [(b, s, r, c) for r in range(h + 2) for c in range(w + 2)
+              if (b, s, r, c) not in covered]
+    rh, rw = world['books'][0][0]
+    free_r = [(0, 0, r, c) for r in range(rh + 2) for c in range(rw + 2)
+              if (0, 0, r, c) not in covered]
+    if len(free_b) < 2 or not free_r:
+        return False
+    p1, p2 = free_b[0], free_b[1]
+    n_cells = len(world['cells'])
+    world['cells'].append({'at': list(p1), 'v': rng.randrange(1, 9)})
+    world['names'].append({'b': b, 't': ['r'] + list(p1) + list(p1[2:]),
+                           'avail': n_cells + 1})
+    k = len(world['names']) - 1
+    world['cells'].append({'at': list(p2), 'f': ['op', '+', ['nm', k],
+                                                 ['n', rng.randrange(1, 5)]]})
+    pr = rng.pick(free_r)
+    world['cells'].append({'at': list(pr), 'f': ['op', '*', ['r'] + list(p2) +
+                                                 list(p2[2:]), ['n', 2]]})
+    world['books'][b][s] = [max(h, p1[2] + 1, p2[2] + 1),
+                            max(w, p1[3] + 1, p2[3] + 1)]
+    world['books'][0][0] = [max(rh, pr[2] + 1), max(rw, pr[3] + 1)]
+    return True
